@@ -156,13 +156,15 @@ prop("C15", "exploration",
 
 prop("C17", "exploration",
      "cases = (IP, port, zone) triples: IPv4 4-byte and 16-byte forms, random/link-local/loopback/unspecified IPv6, ports {0,1,80,255,256,65535,random}, zones {none, every interface "
-     "name present, every interface index as a decimal string, numbers without an interface}; NetAddrToSockaddr followed by SockaddrToTCPOrUnixAddr / SockaddrToUDPAddr must return an "
+     "name present, every interface index as a decimal string, numbers without an interface} - run once on the machine's interfaces and once inside a private network namespace that has an interface "
+     "whose name starts with digits (\"6to4\"); NetAddrToSockaddr followed by SockaddrToTCPOrUnixAddr / SockaddrToUDPAddr must return an "
      "equal IP, port and a well-formed zone with the same scope id; invalid IP lengths and unsupported networks must give nil; Unix paths round-trip. End to end: engines listening on 127.0.0.1:fixed, [::1]:fixed, 127.0.0.1:0, "
      "[::1%lo]:fixed, the machine's link-local address with its zone (when it has one; otherwise recorded as not exercised) and a Unix path serve 120 short connections each whose peers send their own LocalAddr "
      "in-band; OnOpen, every OnTraffic and OnClose compare RemoteAddr with it and LocalAddr with getsockname of the listener (Engine.Dup), while frames split across reads make the handler take pool slices and a "
      "goroutine keeps getting, filling and putting small pool slices. distinct_nontrivial = distinct (tcp|udp, address class, zone class) tuples and engine sub-cases",
      [
          {"harness": "addr", "args": {"quick": [], "thorough": []}, "timeout": {"quick": 300, "thorough": 1800}},
+         {"harness": "addr", "wrap": ["/verif/selftest/netns_wrap.sh"], "args": {"quick": ["--n", "60000"], "thorough": ["--n", "600000"]}, "timeout": {"quick": 300, "thorough": 1800}},
          {"harness": "eng", "flavour": "shim", "args": {"quick": ["--mode", "c17"], "thorough": ["--mode", "c17"]}, "timeout": {"quick": 600, "thorough": 1800}},
          {"harness": "eng", "flavour": "shim", "race": True, "tiers": ["thorough"], "args": {"thorough": ["--mode", "c17"]}, "timeout": {"thorough": 1800}},
      ],
